@@ -629,9 +629,14 @@ def linearise(case, out):
         elif w[0] == "s":
             tag = next((x for x in w[2:3] if re.match(r"a\d+$", x)), None)
             rest = w[3:] if tag else w[2:]
-            if not rest:
+            if len(rest) < 3 or rest[1] == "pub":
                 continue
-            if rest[0] == "xchg":
+            # what the operation wrote to the chain head (semantic, not by operation name): null = the chain was detached
+            # (collector call / destructor), a listener = that listener is subscribed
+            wrote = rest[2].split(">")[1] if rest[0] in ("xchg", "cas+") and ">" in rest[2] else rest[2] if rest[0] == "store" else None
+            if wrote is None:
+                continue
+            if wrote == "null":
                 if w[1] in pending:
                     v = pending.pop(w[1])
                     ops.append(["emit rv %d" % v, None, {}])
@@ -639,8 +644,8 @@ def linearise(case, out):
                 elif drop_at is None:
                     drop_at = disconnect()
                 else:
-                    raise ValueError("second destructor exchange")
-            elif rest[0] == "cas+" and tag is not None:
+                    raise ValueError("the chain was detached a second time after the disconnection")
+            elif tag is not None:
                 tid = int(tag[1:])
                 if tid not in sid:
                     new_listener(tid)
@@ -764,7 +769,11 @@ class BatonSuite(Suite):
             if l.startswith("crash") or l.startswith("assert-failed") or l.startswith("deadlock"):
                 self.oracle_failed = True
                 return ["crash: %s under the schedule (see the trace)" % l]
-        scase, sout = linearise(case, out)
+        try:
+            scase, sout = linearise(case, out)
+        except ValueError as e:
+            self.oracle_failed = True
+            return ["trace: no history of subscriptions, collector calls and one disconnection explains the trace: %s" % e]
         self.lin[cid] = (case, scase, sout)
         msgs = run_prop(scase, sout).msgs
         if msgs:
